@@ -39,7 +39,8 @@ import (
 // only with a structural deadlock in the goroutine dump.
 
 type c19Pools struct {
-	walletIDs, addrs, staking, foreign, txids, rawHex, keystores, mnemonics, passes, pubkeys []string
+	walletIDs, addrs, staking, foreign, txids, rawHex, keystores, mnemonics, passes, pubkeys, targets []string
+	tip                                                                                              uint64
 }
 
 var c19Junk = []string{"", " ", "0", "-1", "1", "00", "0x00", "zz", "1e400", "NaN", "-0.00000001", "0.000000001", "92233720368.54775807", "92233720368.54775808",
@@ -72,6 +73,8 @@ func (p *c19Pools) category(name string) []string {
 		return []string{"ALL", "NONE", "SINGLE", "ALL|ANYONECANPAY", "NONE|ANYONECANPAY", "SINGLE|ANYONECANPAY", ""}
 	case strings.Contains(n, "type"):
 		return []string{"", "all", "withdrawn", "excludeWithdrawn", "0", "1"}
+	case strings.Contains(n, "targets"):
+		return p.targets
 	case strings.Contains(n, "payload"), strings.Contains(n, "pubkey"), strings.Contains(n, "target"):
 		return p.pubkeys
 	case strings.Contains(n, "remarks"):
@@ -145,6 +148,10 @@ func (g *c19Gen) uint(name string, bits int) uint64 {
 	}
 	if strings.Contains(n, "frozen") {
 		vals = append(vals, 2, 4, 9, 61440, 1474560, 1474561)
+	}
+	if strings.Contains(n, "height") && g.r.Chance(75) {
+		// chain queries: heights around the node's chain
+		return uint64(g.r.Intn(int(g.p.tip) + 3))
 	}
 	if strings.Contains(n, "vout") && g.r.Chance(60) {
 		return uint64(g.r.Intn(4))
@@ -329,8 +336,12 @@ func (g *c19Gen) fill(v reflect.Value, name string, depth int) bool {
 
 // methods that only proxy to the consensus node (mempool, chain queries, peers): the simulator has
 // no such node behind them
-var c19NodeOnly = map[string]bool{"GetClientStatus": true, "GetBestBlock": true, "GetBlockByHeight": true, "GetBlockStakingReward": true, "GetNetworkBinding": true,
-	"CheckPoolPkCoinbase": true, "CheckTargetBinding": true, "SendRawTransaction": true, "GetTxStatus": true, "GetRawTransaction": true, "QuitClient": false}
+// no such node behind them. The chain-query handlers (GetBestBlock, GetBlockByHeight, GetTxStatus,
+// GetRawTransaction, GetBlockStakingReward, GetNetworkBinding, CheckPoolPkCoinbase, CheckTargetBinding)
+// are served by the simulator's chain database and an empty binding-state store and ARE exercised:
+// their response builders (createBlockTx, createTxRawResult, createVinList, getTxType) are wallet code
+// that walks chain data.
+var c19NodeOnly = map[string]bool{"GetClientStatus": true, "SendRawTransaction": true, "QuitClient": false}
 
 // c19WorkBound: a request still running after the watchdog AND after this many storage calls is not
 // slow, it does unbounded work (logical criterion; the accepted requests of the grammar stay below
@@ -529,6 +540,21 @@ func (e *c19Env) refresh() {
 	}
 	if len(p.keystores) > 6 {
 		p.keystores = p.keystores[len(p.keystores)-6:]
+	}
+	p.tip = wd.N.Height()
+	if len(p.targets) == 0 {
+		// binding targets: old style (20-byte key hash), new style (22 bytes: hash, proof type, size), and
+		// addresses of other classes
+		for i := 0; i < 3; i++ {
+			if a, err := massutil.NewAddressPubKeyHash(e.g.r.Bytes(20), config.ChainParams); err == nil {
+				p.targets = append(p.targets, a.EncodeAddress())
+			}
+			tb := append(e.g.r.Bytes(20), byte(i%2), byte(24+2*i))
+			if a, err := massutil.NewAddressBindingTarget(tb, config.ChainParams); err == nil {
+				p.targets = append(p.targets, a.EncodeAddress())
+			}
+		}
+		p.targets = append(p.targets, p.foreign...)
 	}
 	if len(p.pubkeys) == 0 {
 		p.pubkeys = []string{"02" + strings.Repeat("11", 32), "03" + strings.Repeat("ab", 32), "04" + strings.Repeat("cd", 64), strings.Repeat("00", 33), "", "02"}
@@ -1262,11 +1288,11 @@ func init() {
 	core.Register(&core.Property{
 		ID:    "C19",
 		Level: "exploration",
-		Rule: "case = one seeded session on a node simulator + started wallet (1–3 wallets, staking/binding/plain history): 70 % requests to a random api.APIServer handler (all handlers except the ten that only proxy to the consensus node; 45 % of the draws go to the eleven transaction/query handlers with the deepest code), built by reflection from a field-name aware grammar " +
+		Rule: "case = one seeded session on a node simulator + started wallet (1–3 wallets, staking/binding/plain history): 70 % requests to a random api.APIServer handler (all handlers except GetClientStatus and SendRawTransaction, which need live peers / a live mempool; the chain-query handlers are served by the simulator's chain database; 45 % of the draws go to the eleven transaction/query handlers with the deepest code), built by reflection from a field-name aware grammar " +
 			"(62 % a valid value of the field's category from the live state: wallet ids, std/staking/foreign addresses, own/foreign/unknown txids, right/wrong passphrases, raw and signed transactions the wallet produced, exported keystores, mnemonics; 10 % a value of another category; 12 % a damaged valid value; 16 % boundary/malformed strings; boundary integers; lists with duplicates, empty and 300 elements); 60 % of the requests are then rewritten into a request that is valid for the wallet in use (its coins incl. immature/pending/staked ones as inputs, its addresses, its passphrase), and 45 % of those get one field replaced by a generated value again; " +
 			"8 % well-formed create/sign/relay round trips that leave coins reserved or pending; 10 % blocks (20 % of them reorganisations) carrying transactions with null-data, zero-value, 150–300 outputs, boundary staking, binding, mixed-owner inputs and same-block children; 5 % unconfirmed deliveries of the same shapes with duplicates and double spends; 4 % a removal held at one of four worker points while requests go on; 3 % restarts. " +
 			"Every call runs under recover() with a 60 s watchdog; after every chain event the follower must have consumed it and no goroutine may have died. evaluations = requests issued; distinct_nontrivial = distinct (layer.method, ok|error, error text prefix)",
-		Assumptions: []string{"handlers that only proxy to the consensus node (GetClientStatus, GetBestBlock, GetBlockByHeight, GetBlockStakingReward, GetNetworkBinding, CheckPoolPkCoinbase, CheckTargetBinding, SendRawTransaction, GetTxStatus, GetRawTransaction) are not exercised: the simulator has no mempool/peer/consensus engine behind them",
+		Assumptions: []string{"GetClientStatus (needs the peer switch) and SendRawTransaction (needs the node's transaction pool with its consensus engine) are not exercised; the chain-query handlers GetBestBlock, GetBlockByHeight, GetTxStatus, GetRawTransaction, GetBlockStakingReward, GetNetworkBinding, CheckPoolPkCoinbase, CheckTargetBinding run against the simulator's chain database and an empty binding-state store (simulated coinbases carry no staking rewards)",
 			"request strings are valid UTF-8 and pointer/interface arguments non-nil, as protobuf decoding and the handlers guarantee", "blocks and unconfirmed transactions carry only output classes mass-core's block validation accepts (witness-v0 script hash, staking, binding, null data)"},
 		CaseTimeout: 1500 * time.Second,
 		Race:        true,
